@@ -38,7 +38,8 @@ RULE = ("generated scripts of 1-14 operations over the store API (save/replace i
         "distinct = distinct canonical JSON of the script.")
 ASSUMPTIONS = [
     "crash model: process death at C-level call boundaries; SQLite's own atomic commit and journal recovery are trusted",
-    "device id 1 and numeric recipient ids, as every caller in the library uses",
+    "device id 1 and numeric recipient ids, as every caller in the library uses; a session under device id 2 is only tried to see that "
+    "the session of device 1 survives it (read_store reads device 1)",
     "the manager never stores a one-time or signed prekey under an id that is taken (it continues after the highest id); the scripts "
     "do try it: the store may refuse or replace, the record must never be lost",
 ]
@@ -237,6 +238,19 @@ def run_case(case):
                 fn = lambda: store.storeSession(c, 1, rec)  # noqa
                 out.label("replace_session" if old is not None else "new_session")
                 repl = old is not None
+            elif kind == "store_session_other_device":
+                # a session for a second device of a contact that already has one (device id 2): the store may refuse it (its table
+                # allows one row per contact) or keep both - the session of device 1 must stay what it was either way
+                c = CONTACTS[op[1] % len(CONTACTS)]
+                if c not in before.sessions:
+                    continue
+                rec = P["sessions"][op[2] % len(P["sessions"])]
+                old = before.sessions[c]
+                allow = ("sessions", {c: {old}})
+                fn = lambda: store.storeSession(c, 2, rec)  # noqa
+                may_refuse = ("sessions", c, old)
+                out.label("store_session_other_device")
+                repl = False
             elif kind in ("delete_session", "delete_all"):
                 c = CONTACTS[op[1] % len(CONTACTS)]
                 old = before.sessions.get(c)
@@ -445,6 +459,7 @@ def op_strategy():
         st.tuples(st.just("save_identity"), sel, sel).map(list),
         st.tuples(st.just("store_session"), sel, sel).map(list),
         st.tuples(st.just("store_session"), sel, sel).map(list),
+        st.tuples(st.just("store_session_other_device"), sel, sel).map(list),
         st.tuples(st.just("delete_session"), sel).map(list),
         st.tuples(st.just("delete_all"), sel).map(list),
         st.just(["store_prekey"]),
@@ -467,6 +482,8 @@ def _enum_basic():
     yield {"sub": "script", "ops": [["save_identity", 0, 0], ["save_identity", 0, 1], ["reopen"]]}
     yield {"sub": "script", "ops": [["store_session", 0, 0], ["store_session", 0, 1], ["reopen"]]}
     yield {"sub": "script", "ops": [["store_sender_key", 0, 0, 0], ["store_sender_key", 0, 0, 1], ["reopen"]]}
+    yield {"sub": "script", "ops": [["store_session", 0, 0], ["store_session_other_device", 0, 1], ["reopen"], ["store_session", 1, 2],
+                                    ["store_session_other_device", 1, 0]]}
     yield {"sub": "script", "ops": [["store_prekey"], ["store_prekey"], ["set_sent", [0]], ["reopen"], ["remove_prekey", 0], ["reopen"]]}
     yield {"sub": "script", "ops": [["store_signed"], ["store_signed"], ["remove_signed", 0], ["reopen"]]}
     yield {"sub": "script", "ops": [["store_signed"], ["store_signed"], ["restore_signed", 0, 2], ["reopen"], ["store_prekey"], ["restore_prekey", 0, 3], ["reopen"]]}
